@@ -251,7 +251,8 @@ class Model(object):
         self.desugared = 0
         if not os.environ.get("VERIF_NO_DESUGAR"):
             for q, fi in self.funcs.items():
-                if any(isinstance(n, (ast.ListComp, ast.IfExp))
+                if any(isinstance(n, (ast.ListComp, ast.IfExp,
+                                      ast.GeneratorExp))
                        for n in ast.walk(fi.node)):
                     self.desugared += desugar.desugar_function(fi.node)
         for q, fi in self.funcs.items():
